@@ -2636,6 +2636,17 @@ class Interp:
             return self.uf('fmod', a[0], a[1])
         if s in ('std::max', 'std::min', 'std::fmax', 'std::fmin'):
             a = A()
+            if len(a) == 1 and isinstance(a[0], list) and a[0]:
+                # std::min({a, b, c}): fold
+                acc = a[0][0]
+                for x_ in a[0][1:]:
+                    if isinstance(acc, fpset.FP) or isinstance(x_, fpset.FP):
+                        acc = fpset.fmaxmin(acc, x_, 'max' in s)
+                    else:
+                        c_ = cmp('<', acc, x_) if 'max' in s else cmp('<', x_, acc)
+                        acc = ite(c_, x_, acc)
+                self.fire('std::min/max-of-initializer-list')
+                return acc
             if len(a) != 2:
                 raise Unsupported(s)
             if isinstance(a[0], list):
